@@ -57,6 +57,13 @@ def power(x1: PolyLike, x2: PolyLike, **kwargs: Any) -> ndpoly:
     x1 = numpoly.aspolynomial(x1)
     x2 = numpoly.aspolynomial(x2).tonumpy().astype(int)
 
+    if x1.shape and x2.shape and x1.ndim != x2.ndim:
+        # the transposes below only commute with broadcasting
+        # when both operands have the same number of dimensions.
+        ndim = max(x1.ndim, x2.ndim)
+        x1 = x1[(numpy.newaxis,) * (ndim - x1.ndim)]
+        x2 = x2[(numpy.newaxis,) * (ndim - x2.ndim)]
+
     if not x2.shape:
         out = numpoly.ndpoly.from_attributes(
             [(0,)], [numpy.ones(x1.shape, dtype=x1._dtype)], x1.names[:1]
@@ -78,7 +85,7 @@ def power(x1: PolyLike, x2: PolyLike, **kwargs: Any) -> ndpoly:
             ).T
         else:
             out = numpoly.concatenate(
-                [power(x1_, x2_).T[numpy.newaxis] for x1_, x2_ in zip(x1.T, x2.T)],
+                [power(x1_, x2_)[numpy.newaxis] for x1_, x2_ in zip(x1.T, x2.T)],
                 axis=0,
             ).T
     else:
